@@ -58,7 +58,7 @@ func buildStates() []*baseState {
 	g1.WithCeremony = true
 	m.Scn, m.Opts, m.Prefix = []string{"G1-genesis", rn, cn}, []replica.Opts{g1, ro, co}, [][][]string{nil, rp, cp}
 	jump := chainprop.Action{Name: "jump", Jump: 1, Expand: true}
-	m.Acts = []chainprop.Action{jump, m.Drive("cer:hash:G:good", "cer:hash:V1:good"), m.Drive("cer:short:G:good", "cer:long:G:good")}
+	m.Acts = []chainprop.Action{jump, m.Drive("cer:hash:G:good", "cer:hash:V1:good"), m.Drive("cer:short:G:good", "cer:long:G:good"), {Name: "empty-block", Empty: true, Expand: true}}
 	c := &chainmc.Ctx{}
 	var out []*baseState
 	add := func(name string, scn int, st *chainmc.State) {
@@ -66,6 +66,12 @@ func buildStates() []*baseState {
 	}
 	add("G1 genesis", 0, m.Init(0))
 	add("G2 rich (pool, invitee, contract)", 1, m.Init(1))
+	// the previous round had no proposer: headers are judged against an empty block (no ProposedHeader)
+	if e := m.Step(1, m.Init(1), 3, c); e != nil {
+		add("G2 rich, head is an empty block", 1, e)
+	} else {
+		panic("state construction: empty block not enabled")
+	}
 	st := m.Init(2)
 	step := func(a int) {
 		nx := m.Step(2, st, a, c)
@@ -140,6 +146,10 @@ func repoFrame(stack string) string {
 	return "?"
 }
 
+// strayGoroutine: a delivery of this process has hung; its goroutine is still running (and possibly allocating),
+// so the allocation figures of later deliveries in this process would be polluted and are not taken any more.
+var strayGoroutine bool
+
 // guarded runs f with panic capture, a hang watchdog and (optionally) allocation accounting.
 func guarded(measure bool, f func()) verdict {
 	var v verdict
@@ -163,9 +173,10 @@ func guarded(measure bool, f func()) verdict {
 	case <-done:
 	case <-time.After(45 * time.Second):
 		v.hang = true
+		strayGoroutine = true
 		return v
 	}
-	if measure {
+	if measure && !strayGoroutine {
 		var after runtime.MemStats
 		runtime.ReadMemStats(&after)
 		v.alloc = after.TotalAlloc - before.TotalAlloc
